@@ -298,7 +298,7 @@ impl Check for C20 {
         out
     }
     fn rule(&self) -> &'static str {
-        "one case = (frames, 50%) 2-25 items fed to a real client or server Session: valid PSH traffic on two streams interleaved with well-formed frames of every command 0-10 and unknown commands x stream-id classes {0, known, unknown, 2^31, 2^32-1} x payloads {empty, random, hostile settings/scheme texts with sizes up to 2^63-1, 0xff x up to 65535, random up to 300}, random junk bytes, and headers that announce more than follows, ended by keep / EOF / reset, with a fault-free sibling pair in the same runtime; (mutate, 22%) two real Sessions exchanging valid traffic through pipes that flip 1-6 bits (anywhere, or aimed at a length or command field) or truncate; (frontends, 28%) 0-70000 random bytes (half of them starting like a valid request) written in 1-5 segments to the SOCKS5 listener, the HTTP listener, or as the content of a UDP-over-TCP stream, or grammar-aware hostile content (every class of isConnect / address type / name field {empty, announcing more than follows, not UTF-8, 255 bytes, unresolvable, literal-looking, resolvable} / truncation / datagram length {0, 1, 65507, 65508, 65535, more or less than announced}) as the association request + records of a UDP-over-TCP stream or as the destination header of an ordinary stream over a real client session (which must afterwards still serve a well-formed stream or be closed), or silent / junk / half-finished peers on the server's own port, with a well-behaved sibling connection afterwards; panics are caught process-wide, aborts by the worker model, spins by the poll budget; every case is non-trivial; distinct = distinct (plan hash, poll-order fingerprint)"
+        "one case = (frames, 50%) 2-25 items fed to a real client or server Session: valid PSH traffic on two streams interleaved with well-formed frames of every command 0-10 and unknown commands x stream-id classes {0, known, unknown, 2^31, 2^32-1} x payloads {empty, random, hostile settings/scheme texts with sizes up to 2^63-1, 0xff x up to 65535, random up to 300}, random junk bytes, and headers that announce more than follows, ended by keep / EOF / reset, with a fault-free sibling pair in the same runtime; (mutate, 22%) two real Sessions exchanging valid traffic through pipes that flip 1-6 bits (anywhere, or aimed at a length or command field) or truncate; (frontends, 28%) 0-70000 random bytes (half of them starting like a valid request) written in 1-5 segments to the SOCKS5 listener, the HTTP listener, or as the content of a UDP-over-TCP stream, or grammar-aware hostile content (every class of isConnect / address type / name field {empty, announcing more than follows, not UTF-8, 255 bytes, unresolvable, literal-looking, resolvable} / truncation / datagram length {0, 1, 65507, 65508, 65535, more or less than announced}) as the association request + records of a UDP-over-TCP stream or as the destination header of an ordinary stream over a real client session (which must afterwards still serve a well-formed stream or be closed, and a sibling tunnel opened on that session beforehand must keep echoing), or silent / junk / half-finished peers on the server's own port, with a well-behaved sibling connection afterwards; panics are caught process-wide, aborts by the worker model, spins by the poll budget; every case is non-trivial; distinct = distinct (plan hash, poll-order fingerprint)"
     }
     fn real_components(&self) -> Vec<&'static str> {
         vec!["Session::recv_loop / handle_frame (all arms), FrameCodec::decode, StringMap::from_bytes, PaddingFactory::new / update_default / generate_record_payload_sizes, write paths, close", "SOCKS5 and HTTP front-ends, Client, Server, TcpProxyHandler::read_socks_addr, udp_proxy::read_initial_request / read_udp_packet (frontends mode)"]
@@ -653,6 +653,23 @@ async fn run_mutate(plan: &Value) -> Outcome {
     out
 }
 
+/// write `msg` on an open stream of the whole system (echo target) and read it back
+async fn echo_on(se: &Arc<Session>, st: &Arc<Stream>, msg: &[u8]) -> Result<(), String> {
+    se.write_data_frame(st.id(), Bytes::copy_from_slice(msg)).await.map_err(|e| format!("write: {}", e))?;
+    let rd = st.reader();
+    let mut got = Vec::new();
+    let mut b = [0u8; 64];
+    let dl = tokio::time::Instant::now() + Duration::from_secs(20);
+    while got.len() < msg.len() {
+        let mut r = rd.lock().await;
+        match tokio::time::timeout_at(dl, r.read(&mut b)).await {
+            Ok(Ok(n)) if n > 0 => got.extend_from_slice(&b[..n]),
+            other => return Err(format!("echo: {:?} after {} of {} bytes", other.map(|r| r.map_err(|e| e.to_string())), got.len(), msg.len())),
+        }
+    }
+    if got == msg { Ok(()) } else { Err("echo differs".into()) }
+}
+
 async fn run_frontends(plan: &Value) -> Outcome {
     let mut out = Outcome::ok();
     let padding = factory(DEFAULT_SCHEME);
@@ -720,6 +737,18 @@ async fn run_frontends(plan: &Value) -> Outcome {
         }
         "uot" | "dest" => {
             set_dns("good.test", vec!["198.51.100.9".parse().unwrap()]);
+            // a sibling tunnel first: it creates the session the hostile stream is going to share, and it must not
+            // notice anything ("other connections are unaffected")
+            let sib = match timeout(Duration::from_secs(60), client.create_proxy_stream(("192.0.2.80".to_string(), 7))).await {
+                Ok(Ok(x)) => Some(x),
+                _ => None,
+            };
+            if let Some((sst, sse)) = &sib {
+                if let Err(e) = echo_on(sse, sst, b"sibling-before").await {
+                    out.viol("harness", "sibling-setup", e);
+                    return out;
+                }
+            }
             // the bytes travel over a real client session: as the content of a UDP-over-TCP stream, or as the
             // destination header (and what follows it) of an ordinary stream the harness opens by hand
             let opened: Result<(Arc<Stream>, Arc<Session>), String> = if target == "uot" {
@@ -782,6 +811,12 @@ async fn run_frontends(plan: &Value) -> Outcome {
                             if !se.is_closed() {
                                 out.viol("session-wedged", format!("same-session-unusable-but-open:{}", target), format!("after hostile stream content the carrying session is neither closed nor able to serve a well-formed stream: {}", e));
                             }
+                        }
+                    }
+                    if let Some((sst, sse)) = &sib {
+                        anytls_simnet::world::probe(if sse.id() == se.id() { "c20.sibling_shares_the_session_of_the_hostile_stream" } else { "c20.sibling_on_another_session" });
+                        if let Err(e) = echo_on(sse, sst, b"sibling-after").await {
+                            out.viol("others-affected", format!("sibling-tunnel-broken-by-stream-content:{}", target), format!("a sibling tunnel (session {}, hostile stream on session {}) no longer works after hostile content inside another stream: {}", sse.id(), se.id(), e));
                         }
                     }
                     drop(st);
